@@ -1,0 +1,43 @@
+//go:build verif
+
+package ha
+
+import (
+	"net/http"
+	"sync/atomic"
+	"time"
+)
+
+// Verification seams for property C13 (runtime-monitoring harness in /verif).
+// Exported wrappers around unexported functions / fields; no behaviour of their own.
+
+// VerifC13HandleSSEData hands one SSE data payload to the real handleSSEData
+// (the function connectToStream calls for every "data: " line).
+func (s *HASyncer) VerifC13HandleSSEData(data []byte) error { return s.handleSSEData(data) }
+
+// VerifC13PerformFullSync runs the real performFullSync (GET /ha/sessions on the
+// partner through s.client, then apply).
+func (s *HASyncer) VerifC13PerformFullSync() error { return s.performFullSync() }
+
+// VerifC13HandleGetSessions is the real GET /ha/sessions handler of the active node.
+func (s *HASyncer) VerifC13HandleGetSessions(w http.ResponseWriter, r *http.Request) {
+	s.handleGetSessions(w, r)
+}
+
+// VerifC13SetTransport sets the transport of the syncer's HTTP client (field s.client.Transport),
+// so that the message-handling layer can be driven without sockets.
+func (s *HASyncer) VerifC13SetTransport(rt http.RoundTripper) { s.client.Transport = rt }
+
+// VerifC13Pending returns the active node's queue of changes accepted by PushChange and not
+// yet broadcast (field s.pendingChanges).
+func (s *HASyncer) VerifC13Pending() chan *SyncMessage { return s.pendingChanges }
+
+// VerifC13SequenceNum returns the current change sequence counter (what broadcastLoop stamps
+// on a heartbeat).
+func (s *HASyncer) VerifC13SequenceNum() uint64 { return atomic.LoadUint64(&s.sequenceNum) }
+
+// VerifC13SetBackoff sets the reconnect back-off fields (backoff, backoffMin, backoffMax),
+// which have no configuration knob. To be called before Start.
+func (s *HASyncer) VerifC13SetBackoff(min, max time.Duration) {
+	s.backoff, s.backoffMin, s.backoffMax = min, min, max
+}
